@@ -264,12 +264,12 @@ def history_specs(kind, rng):
         add('hist-restrict', T(ax), [['refined', 1], ['restrict', list(range(1, 5))]])
         add('hist-plus-mirrored', T(ax), [['plus_translated', 0, 4], ['mirrored', 0]])
     elif kind == 'tri':
-        ax = [[0, 1, 2], [0, 1, 2]]
+        ax = [[0, 1, 2], [0, 1]]
         add('hist-refined', T(ax), [['refined', 1]])
         add('hist-adaptive', T(ax), [['refined_marked', r(2)]])
-        add('hist-adaptive-adaptive', T(ax), [['refined_marked', r(2)], ['refined_marked', r(3)]])
-        add('hist-adaptive-uniform', {'kind': 'tri', 'init': 'default'}, [['refined', 1], ['refined_marked', r(2)], ['refined', 1]])
-        add('hist-restrict', T(ax), [['refined', 1], ['restrict', list(range(3, 14))]])
+        add('hist-adaptive-adaptive', T(ax), [['refined_marked', r(1)], ['refined_marked', r(2)]])
+        add('hist-adaptive-uniform', {'kind': 'tri', 'init': 'default'}, [['refined_marked', r(1)], ['refined', 1]])
+        add('hist-restrict', T(ax), [['refined', 1], ['restrict', list(range(3, 12))]])
         add('hist-remove-elements', T(ax), [['refined_marked', r(2)], ['remove_elements', r(2)]])
         add('hist-plus-mirrored', T(ax), [['plus_translated', 0, 2], ['mirrored', 1]])
         add('hist-sqsymmetric', {'kind': 'tri', 'init': 'sqsymmetric'}, [['refined_marked', r(2)]])
@@ -286,18 +286,19 @@ def history_specs(kind, rng):
             {'rect': 1})
     elif kind == 'tet':
         ax = [[0, 1, 2], [0, 1], [0, 1]]
-        add('hist-refined', T(ax), [['refined', 1]])
-        add('hist-adaptive', T(ax), [['refined_marked', r(2)]])
-        add('hist-adaptive-uniform', {'kind': 'tet', 'init': 'default'}, [['refined_marked', r(1)], ['refined', 1]])
-        add('hist-restrict-mirrored', T(ax), [['refined', 1], ['restrict', list(range(5, 40))], ['mirrored', 0]])
-        add('hist-plus', T(ax), [['plus_translated', 0, 2], ['refined_marked', r(2)]])
+        ax1 = [[0, 1], [0, 1], [0, 1]]
+        add('hist-refined', T(ax1), [['refined', 1], ['restrict', list(range(4, 20))]])
+        add('hist-adaptive', T(ax1), [['refined_marked', r(2)]])
+        add('hist-adaptive-adaptive', {'kind': 'tet', 'init': 'default'}, [['refined_marked', r(1)], ['refined_marked', r(1)]])
+        add('hist-restrict-mirrored', T(ax), [['restrict', list(range(2, 11))], ['mirrored', 0]])
+        add('hist-plus', T(ax1), [['plus_translated', 0, 1], ['refined_marked', r(1)]])
         add('hist-from-hexes', {'kind': 'hex', 'init': 'tensor', 'axes': ax}, [['to_meshtet']])
         add('hist-oriented', T(ax), [['oriented'], ['refined_marked', r(2)]])
     elif kind == 'hex':
-        ax = [[0, 1, 2], [0, 1], [0, 2]]
-        add('hist-refined', T(ax), [['refined', 1]], {'rect': 1})
-        add('hist-restrict', T(ax), [['refined', 1], ['restrict', list(range(1, 13))]], {'rect': 1})
-        add('hist-plus-mirrored', T(ax), [['plus_translated', 0, 2], ['mirrored', 2]], {'rect': 1})
+        ax = [[0, 1], [0, 1], [0, 2]]
+        add('hist-refined', {'kind': 'hex', 'init': 'default'}, [['refined', 1], ['restrict', list(range(0, 4))]], {'rect': 1})
+        add('hist-restrict', T([[0, 1, 2], [0, 1], [0, 2]]), [['restrict', [0, 1, 3]]], {'rect': 1})
+        add('hist-plus-mirrored', T(ax), [['plus_translated', 0, 1], ['mirrored', 2]], {'rect': 1})
     return out
 
 
@@ -344,7 +345,7 @@ def generate(tier, seed):
         # ---- meshes reached through operation histories (quick: the adaptive ones + a rotating selection)
         hs = [h for h in hcache[kind] if admissible(name, meta, h[2])]
         if hs and not th:
-            keep = [h for h in hs if 'adaptive' in h[0]][:2]
+            keep = [h for h in hs if 'adaptive' in h[0]][en % 2:][:1]
             rest = [h for h in hs if h not in keep]
             keep += [rest[(en + j) % len(rest)] for j in range(min(2, len(rest)))]
             hs = keep
@@ -357,7 +358,7 @@ def generate(tier, seed):
                 fam, p, t, flags = adm[(en + j) % len(adm)]
                 spec = MO.from_pt(kind, p, t, touch=TOUCH[kind])
                 recs.append(_hrec(kind, name, fam + '-touched', [spec], shifted=flags.get('shifted', 0)))
-            if hs:
+            if hs and th:
                 fam, spec, flags = hs[0]
                 recs.append(_hrec(kind, name, fam + '-touched', [dict(spec, touch=TOUCH[kind])]))
         # ---- ONE element object per side driven over a sequence of meshes, incl. pairs with equal cell counts
@@ -365,10 +366,12 @@ def generate(tier, seed):
             fam, p, t, flags = adm[en % len(adm)]
             p2, t2 = G.shuffle(kind, p, t, rng, local=(kind != 'quad' and kind != 'hex') or bool(flags.get('shifted')))
             seq = [MO.from_pt(kind, p, t), MO.from_pt(kind, p2, t2)]
-            fam3, p3, t3, flags3 = adm[(en + 1) % len(adm)]
-            seq.append(MO.from_pt(kind, p3, t3))
-            if hs:
-                seq.append(hs[-1][1])
+            flags3 = {}
+            if th:
+                fam3, p3, t3, flags3 = adm[(en + 1) % len(adm)]
+                seq.append(MO.from_pt(kind, p3, t3))
+                if hs:
+                    seq.append(hs[-1][1])
             seq.append(MO.from_pt(kind, p, np.asarray(t)[:, ::-1]))            # same cells, reversed cell order
             recs.append(_hrec(kind, name, fam + '-element-reused', seq,
                               shifted=max(flags.get('shifted', 0), flags3.get('shifted', 0))))
